@@ -67,6 +67,9 @@ func (eng) Cases(seed uint64, tier string) []core.CaseDesc {
 	for i := 0; i < 4; i++ {
 		cs = append(cs, core.CaseDesc{ID: fmt.Sprintf("dedupwin/%02d", i), Kind: "dedupwin", Seed: uint64(i)})
 	}
+	for i := 0; i < 2; i++ {
+		cs = append(cs, core.CaseDesc{ID: fmt.Sprintf("evalpanic/%02d", i), Kind: "evalpanic", Seed: uint64(i)})
+	}
 	nrs := 6
 	if tier == "thorough" {
 		nrs = 200
@@ -805,8 +808,93 @@ func (eng) Run(c core.CaseDesc, tier string) *core.CaseResult {
 		runDedupWindow(res, c)
 	case "rmstale":
 		runRemoveBehindQueuedAdd(res, c)
+	case "evalpanic":
+		runEvalPanic(res, c)
 	}
 	return res
+}
+
+// runEvalPanic: the function given to Eval panics. Case 0: on an idle machine
+// (the function runs on the caller's goroutine); case 1: queued behind a
+// running handler, so that it runs on the goroutine of whoever drains the
+// queue. In both cases the queue has to go on: a later mutation is processed,
+// and the caller whose goroutine drained the queue gets its result, not the
+// panic of somebody else's function.
+func runEvalPanic(res *core.CaseResult, c core.CaseDesc) {
+	m := am.New(context.Background(), am.Schema{"A": {}, "Hold": {}},
+		&am.Opts{Id: "c04ep", DontLogId: true, DontLogStackTrace: true, HandlerTimeout: 30 * time.Second})
+	defer m.Dispose()
+	m.EvalTimeout = 3 * time.Second
+	evalCall := func() (panicked any) {
+		defer func() { panicked = recover() }()
+		m.Eval("verif", func() { panic("c04 eval fault") }, nil)
+		return nil
+	}
+	var drainerPanic any
+	if c.Seed == 0 {
+		_ = evalCall()
+	} else {
+		entered := make(chan struct{})
+		gate := make(chan struct{})
+		_, _ = m.HandlersBindMaps(nil, map[string]am.HandlerFinal{
+			"HoldState": func(e *am.Event) {
+				close(entered)
+				select {
+				case <-gate:
+				case <-time.After(20 * time.Second):
+				}
+			},
+		})
+		holdDone := make(chan struct{})
+		go func() {
+			defer close(holdDone)
+			defer func() { drainerPanic = recover() }()
+			m.Add1("Hold", nil)
+		}()
+		select {
+		case <-entered:
+		case <-time.After(10 * time.Second):
+			res.Inconclusive = "the holding handler was not entered"
+			close(gate)
+			return
+		}
+		evalDone := make(chan struct{})
+		go func() { defer close(evalDone); _ = evalCall() }()
+		for i := 0; i < 2000 && m.QueueLen() == 0; i++ {
+			time.Sleep(time.Millisecond)
+		}
+		close(gate)
+		select {
+		case <-holdDone:
+		case <-time.After(10 * time.Second):
+			res.Inconclusive = "Add1(Hold) did not return"
+			return
+		}
+		select {
+		case <-evalDone:
+		case <-time.After(10 * time.Second):
+		}
+	}
+	res.Evals++
+	if drainerPanic != nil {
+		res.Violate("C04/eval-panic/escapes-into-the-draining-caller", fmt.Sprintf(
+			"Add1(Hold) panicked with %v: the function another goroutine gave to Eval panicked while this caller was draining the queue", drainerPanic), nil)
+		return
+	}
+	ret := make(chan am.Result, 1)
+	go func() { ret <- m.Add1("A", am.A{"uid": rec.NextUid()}) }()
+	res.Evals++
+	select {
+	case rs := <-ret:
+		if q := quiesce(m); q != "" || !m.Is1("A") {
+			res.Violate("C04/stranded/after-eval-panic", fmt.Sprintf(
+				"after the function given to Eval panicked, Add1(A) returned %s and A is active=%v on a machine that %s (queue length %d): the queue is never processed again",
+				rec.ResStr(rs), m.Is1("A"), map[bool]string{true: "is idle", false: "does not get idle: " + q}[q == ""], m.QueueLen()), nil)
+		}
+	case <-time.After(10 * time.Second):
+		res.Violate("C04/stranded/after-eval-panic", "after the function given to Eval panicked, Add1(A) did not return within 10s", map[string]any{"dump": core.StackAll()})
+	}
+	res.Key("evalpanic", c.Seed)
 }
 
 // runRemoveBehindQueuedAdd: the End handler of a Remove(X) queues Add(B); as
